@@ -23,6 +23,8 @@ def run(R, cfg, over=None):
     bad = any_([~l for l in H.action_legal(sp.st, sp.act)])
     ok, _ = R.reach("antecedent: an illegal in-spec action exists", sp.A, bad.z())
     D.prove_list(R, sp, obl)
+    if hasattr(H, "kernels_c05"):
+        H.kernels_c05(R)   # extra kernel-level obligations driven directly (as in C07/C09), e.g. Sudoku's reward kernels
 
 
 def jobs(tier, seed):
